@@ -411,6 +411,35 @@ func (x *Exec) applyContract(st *State, fn *ssa.Function, spec *contract.FuncSpe
 		env.vars["result"] = res
 		nres = -1
 	}
+	if fb := spec.Attrs["fresh_bitlist"]; fb != "" && nres == 1 && x.Mode == ModeUnwind {
+		// `attr fresh_bitlist <count|?>`: the result is a freshly allocated BitList whose contents
+		// are unknown (a new bit-array symbol); its length is the given expression or unknown
+		rt := sig.Results().At(0).Type()
+		elem := rt.Underlying().(*types.Pointer).Elem()
+		ref := x.newObject(st, elem)
+		x.freshSeq++
+		var cnt *T
+		if fb == "?" {
+			cnt = term.Var(fmt.Sprintf("%s!%d.count", short(site), x.freshSeq), term.Int)
+			x.assumeOnce(term.And(term.Le(term.I(0), cnt), term.Le(cnt, term.I(1<<30))))
+		} else {
+			e, err := contract.ParseExpr(fb)
+			if err != nil {
+				x.fail("attr fresh_bitlist: %v", err)
+			}
+			cnt = env.evalInt(e)
+		}
+		class := classFor(elem)
+		x.storeComp(st, class+".count", term.Int, ref, nil, cnt)
+		gs := x.P.ghostField(typeKey(elem), "model")
+		if gs == nil {
+			x.fail("attr fresh_bitlist on a type without ghost field model")
+		}
+		x.storeComp(st, class+".$model", gs, ref, nil, term.Var(fmt.Sprintf("%s!%d.model", short(site), x.freshSeq), gs))
+		res = VT{ref, rt}
+		env.vars["result"] = res
+		nres = -1
+	}
 	if nres == 1 {
 		// a defining postcondition `ensures result == E` gives the result directly
 		for _, e := range spec.Ensures {
